@@ -27,6 +27,17 @@ func c18Def() nhCheckDef {
 			scs = append(scs, nhScenario{Cfg: nhConfig{Algo: a, SprayL: l}, Bundles: []nhBundle{{Spec: local, Local: true, Dest: "dest"}, {Spec: foreign, Dest: "dest"}}})
 		}
 	}
+	// the sensor-mule wrapper around both variants: peers named sensor* are excluded by the wrapper after the wrapped
+	// algorithm has selected them, and the copies set aside for them must come back
+	for _, a := range []string{"spray", "binary_spray"} {
+		l := uint64(4)
+		local := gen.Spec{Dst: "dtn://dest/x", Src: "dtn://node/app", Rpt: "dtn://node/app", PCRC: 2, Lifetime: 3600000, PayLen: 8, PaySeed: 1}
+		foreign := gen.Spec{Dst: "dtn://dest/x", Src: "dtn://far/app", Rpt: "dtn://far/app", PCRC: 2, Lifetime: 3600000, PayLen: 8, PaySeed: 2}
+		if a == "binary_spray" {
+			foreign.Ext = []gen.BSpec{{Kind: "spray", N: []uint64{l}}}
+		}
+		scs = append(scs, nhScenario{Cfg: nhConfig{Algo: "sensor-mule", MuleInner: a, SprayL: l}, Bundles: []nhBundle{{Spec: local, Local: true, Dest: "dest"}, {Spec: foreign, Dest: "dest"}}})
+	}
 	return nhCheckDef{Scenarios: scs, Oracle: c18Oracle}
 }
 
@@ -42,6 +53,9 @@ func c18Alphabet(peers []string) []nhEvent {
 // c18Oracle: the copy budget is never exceeded and never leaks.
 func c18Oracle(r *nhRun) (string, string) {
 	algo := r.sc.Cfg.Algo
+	if algo == "sensor-mule" {
+		algo = r.sc.Cfg.MuleInner
+	}
 	L := r.sc.Cfg.SprayL
 	for i, t := range r.tr {
 		if !t.Accepted {
@@ -122,6 +136,10 @@ func runC18(r *ev.Run, thorough bool) int {
 			plans = append(plans, nhPlan{Scenario: si, Alphabet: c18Alphabet(peers), Depth: depth, Budget: budget})
 			plans = append(plans, nhPlan{Scenario: si, Root: []nhEvent{{Op: "up", P: "r1"}, {Op: "fail", P: "r1"}, {Op: "up", P: "r2"}}, Alphabet: c18Alphabet(peers), Depth: depth, Budget: budget})
 		}
+	}
+	for k := 0; k < 2; k++ {
+		mp := []string{"sensor1", "sensor2", "r1"}
+		plans = append(plans, nhPlan{Scenario: 2*c18MaxL + k, Alphabet: c18Alphabet(mp), Depth: depth, Budget: budget})
 	}
 	return nhRunPlans(r, "C18", "c18", plans,
 		fmt.Sprintf("spray-and-wait and binary spray with budgets L in %v, relays %v plus the destination: BFS over submission, reception (binary: carrying L copies), peers up/down, send outcome switches and retry ticks from the initial state and from a root with a failing and a working relay; in every state: successful transmissions to non-destination peers <= L-1, copies kept + copies given away (spray: successes; binary: sum of announced copies parsed from the transmitted bundles) = copies held, a single-copy holder sends only to the destination", ls, peers),
